@@ -131,6 +131,12 @@ def run(tier, seed, which="C07"):
     rng = random.Random(seed)
     r = kv.run_tlc("MC_Scoring", "MC_Scoring_q.cfg" if tier == "quick" else "MC_Scoring_t.cfg", wd, workers=8, timeout=3000, heap="6g")
     V.add_tlc(r)
+    rh = kv.run_tlc("MC_Hirschberg", "MC_Hirschberg_ok.cfg", wd, workers=4, timeout=900)
+    V.add_tlc(rh)
+    if not rh.ok:
+        raise kv.Broken("MC_Hirschberg fails: %s" % rh.errors[:2])
+    if kv.run_tlc("MC_Hirschberg", "MC_Hirschberg_twin.cfg", wd, workers=4, timeout=900).ok:
+        raise kv.Broken("MC_Hirschberg twin not rejected")
     if not r.ok:
         raise kv.Broken("MC_Scoring: fold DP disagrees with brute force: %s" % r.out[-600:])
     C = cases(rng, tier)
@@ -150,7 +156,7 @@ def run(tier, seed, which="C07"):
     def do(bi):
         bwd = os.path.join(wd, "b%d" % bi)
         os.makedirs(bwd, exist_ok=True)
-        lines = ["level 1"]
+        lines = ["level 1", "hserial 1"]
         for k, c in enumerate(batches[bi]):
             fa = os.path.join(bwd, "c%d.fa" % k)
             recs = [("a%d" % i, c["a"]) for i in range(c["ka"])] + [("b%d" % i, c["b"]) for i in range(c["kb"])]
@@ -158,6 +164,10 @@ def run(tier, seed, which="C07"):
             lines += ["note CASE %d" % k, "read 0 %s" % fa, "run 0 %d %d %g %g %g" % (c["threads"], c["type"], c["pens"][0], c["pens"][1], c["pens"][2]), "dump 0 out full", "free 0"]
         tp, rc, err = kv.run_kvdrive("\n".join(lines) + "\n", bwd, "t", timeout=600, env={"OMP_MAX_ACTIVE_LEVELS": "2"})
         ev = kv.read_trace(tp)
+        # the recursion itself, step by step, against the controller model (diagnostic: a divergence is not a verdict)
+        hp = os.path.join(bwd, "h.ndjson")
+        kv.write_ndjson(hp, [e for e in ev if e.get("e") in ("HStep", "HSplit")])
+        hres = kv.run_tlc("HirschTrace", "HirschTrace.cfg", bwd, trace=hp, timeout=1200, heap="3g", name="hirsch")
         out = []
         for e in ev:
             if e.get("e") == "Note" and e["text"].startswith("CASE "):
@@ -167,10 +177,14 @@ def run(tier, seed, which="C07"):
                 out.append(e)
         kv.write_ndjson(tp, out)
         res = kv.run_tlc("ScoringTrace", "ScoringTrace.cfg", bwd, trace=tp, timeout=3000, heap="4g")
-        return bi, tp, rc, err, res
+        return bi, tp, rc, err, res, hres
 
-    for bi, tp, rc, err, res in kv.pmap(do, range(len(batches)), workers=14):
+    for bi, tp, rc, err, res, hres in kv.pmap(do, range(len(batches)), workers=14):
         V.add_tlc(res)
+        V.add_tlc(hres)
+        V.extra["controller_steps_validated"] = V.extra.get("controller_steps_validated", 0) + hres.distinct
+        for (ln, sid, items) in hres.divs:
+            V.divergence("batch %d controller event %d: %s" % (bi, ln, ",".join(sorted(items))))
         skipped = set()
         for line in res.prints:
             if line.startswith('<<"KVSKIP"'):
